@@ -4,6 +4,7 @@ Contracts for C10 (the OMEN generator enumerates each level exactly) -- the func
   GuessStructure._find_cp        the level search: highest level in [bottom, min(top, max_level)] at which the prefix has transitions
   GuessStructure._format_guess   the emitted string is the initial n-gram followed by the letter each parse-tree element points at
   MarkovCracker._find_first_object   lowest level 0..max_level (inclusive) holding an entry
+  MarkovCracker._increase_len_for_target / _increase_ip_for_target   the cursors over lengths and initial n-grams: next entry in level order within the budget
 
 The backtracking successor (GuessStructure.next_guess / _fill_out_parse_tree with the shared memo table) updates a list of mixed-type
 lists in place and is outside the subset the verifier accepts; exactness of the enumeration (each string of the level once, none missing,
@@ -172,3 +173,173 @@ Contract(
     loops={0: LoopSpec(fingerprint='for level in range(0,self.max_level + 1)', inv=_ff_inv)},
     note='C10.first_object: the lowest level in 0..max_level (inclusive) that holds an entry; raises only when every level is empty',
 )
+
+
+# ---- MarkovCracker._increase_len_for_target / _increase_ip_for_target (the cursors over lengths and initial n-grams) --------------
+# cur_len / cur_ip are [level, index] into grammar['ln'] / grammar['ip'] (level -> list).  Each function moves its cursor to the NEXT entry in
+# (level, index) order whose level does not exceed min(max_level, budget) -- budget = target_level for lengths, working_target for initial
+# n-grams -- rebuilds the GuessStructure for it and returns True; it returns False, changing nothing, exactly when there is no such entry.
+LINT = TList(TInt)
+LNT = TDict(TInt, LINT)
+IPT = TDict(TInt, LSTR)
+OMEN_G = TRec({'ln': LNT, 'ip': IPT, 'cp': CPT})
+OPT_OBJ = ObjShape('lib_guesser.omen.optimizer:Optimizer', {'max_length': TInt})
+GS_NEW = ObjShape(GSM, {'first_guess': TBool, 'cp': CPT, 'max_level': TInt, 'ip': TStr, 'ip_length': TInt, 'cp_length': TInt, 'target_level': TInt,
+                        'parse_tree': TREE, 'optimizer': OPT_OBJ})
+MC_CUR = ObjShape(MCM, {'grammar': OMEN_G, 'max_level': TInt, 'target_level': TInt, 'start_ip': TInt, 'cur_len': LINT, 'cur_ip': LINT,
+                        'cur_guess': GS_NEW, 'optimizer': OPT_OBJ})
+
+
+def _at(lst, k):
+    return z3.Select(LINT.arr(lst), k)
+
+
+def _cap(a, b):
+    return z3.If(a < b, a, b)
+
+
+def _cur_parts(slf):
+    f = slf.fields
+    g = f['grammar'].fields if hasattr(f['grammar'], 'fields') else None
+    if g is None:
+        gt = f['grammar'].term
+        ln, ip = OMEN_G.get(gt, 'ln'), OMEN_G.get(gt, 'ip')
+    else:
+        ln, ip = g['ln'].term, g['ip'].term
+    return ln, ip
+
+
+def _cur_cp(slf):
+    g = slf.fields['grammar']
+    return g.fields['cp'].term if hasattr(g, 'fields') else OMEN_G.get(g.term, 'cp')
+
+
+def _same_obj(a, b):
+    """two object values agree field by field (the same object, or an untouched copy of its fields)"""
+    if a is b:
+        return z3.BoolVal(True)
+    parts = []
+    for k in b.fields:
+        x, y = a.fields.get(k), b.fields[k]
+        if x is None:
+            return z3.BoolVal(False)
+        if isinstance(x, ZV) and isinstance(y, ZV):
+            parts.append(x.term == y.term)
+        elif hasattr(x, 'fields') and hasattr(y, 'fields'):
+            parts.append(_same_obj(x, y))
+        elif x is not y:
+            return z3.BoolVal(False)
+    return z3.And(parts) if parts else z3.BoolVal(True)
+
+
+def _empty_between(size_at, lo, hi):
+    """no level t with lo < t < hi holds an entry"""
+    t = z3.Int('t!cur')
+    return z3.ForAll([t], z3.Implies(z3.And(lo < t, t < hi), size_at(t) == 0), patterns=[size_at(t)])
+
+
+def _cursor_requires(which):
+    def req(c):
+        f = c.self.fields
+        ln, ip = _cur_parts(c.self)
+        ml = f['max_level'].term
+        t = z3.Int('t!cr')
+        cur = f[which].term
+        return [('cursor_wf', z3.And(LINT.len(f['cur_len'].term) == 2, LINT.len(f['cur_ip'].term) == 2, 0 <= _at(cur, 0), _at(cur, 0) <= ml, _at(cur, 1) >= -1)),
+                ('levels_present', z3.ForAll([t], z3.Implies(z3.And(0 <= t, t <= ml), z3.And(LNT.has(ln, t), IPT.has(ip, t))),
+                                             patterns=[LNT.has(ln, t), IPT.has(ip, t)])),
+                ('len_cursor_valid', z3.And(0 <= _at(f['cur_len'].term, 0), _at(f['cur_len'].term, 0) <= ml, 0 <= _at(f['cur_len'].term, 1),
+                                            _at(f['cur_len'].term, 1) < LINT.len(LNT.get(ln, _at(f['cur_len'].term, 0))))),
+                ('list_lengths_are_non_negative', z3.ForAll([t], z3.And(LINT.len(LNT.get(ln, t)) >= 0, LSTR.len(IPT.get(ip, t)) >= 0),
+                                                            patterns=[LNT.get(ln, t), IPT.get(ip, t)])),
+                ('start_ip_valid', z3.And(0 <= f['start_ip'].term, f['start_ip'].term <= ml, LSTR.len(IPT.get(ip, f['start_ip'].term)) > 0))]
+    return req
+
+
+def _cursor_post(which, budget_of):
+    def size_fn(c):
+        ln, ip = _cur_parts(c.self)
+        return (lambda t: LINT.len(LNT.get(ln, t))) if which == 'cur_len' else (lambda t: LSTR.len(IPT.get(ip, t)))
+
+    def post(c):
+        f0 = c.self.fields
+        f1 = c.after['self'].fields
+        ln, ip = _cur_parts(c.self)
+        size = size_fn(c)
+        l0, i0 = _at(f0[which].term, 0), _at(f0[which].term, 1)
+        top = _cap(f0['max_level'].term, budget_of(c))
+        r = c.result.term
+        new = f1[which].term
+        l1, i1 = _at(new, 0), _at(new, 1)
+        same_level = z3.And(l1 == l0, i1 == i0 + 1, i0 + 1 < size(l0))
+        higher = z3.And(l0 < l1, l1 <= top, i1 == 0, size(l1) > 0, i0 + 1 >= size(l0), _empty_between(size, l0, l1))
+        nl, ni = _at(f1['cur_len'].term, 0), _at(f1['cur_len'].term, 1)
+        pl, pi = _at(f1['cur_ip'].term, 0), _at(f1['cur_ip'].term, 1)
+        gf = f1['cur_guess'].fields
+        rebuilt = z3.And(gf['ip'].term == z3.Select(LSTR.arr(IPT.get(ip, pl)), pi),
+                         gf['cp_length'].term == z3.Select(LINT.arr(LNT.get(ln, nl)), ni),
+                         gf['target_level'].term == f0['target_level'].term - nl - pl,
+                         gf['max_level'].term == f0['max_level'].term,
+                         box(gf['cp'], CPT) == _cur_cp(c.self),
+                         box(gf['first_guess'], TBool), TREE.len(box(gf['parse_tree'], TREE)) == 0)
+        out = [('next_entry_in_level_order', z3.Implies(r, z3.And(LINT.len(new) == 2, z3.Or(same_level, higher)))),
+               ('false_only_when_nothing_is_left', z3.Implies(z3.Not(r), z3.And(i0 + 1 >= size(l0), _empty_between(size, l0, top + 1)))),
+               ('guess_structure_rebuilt_for_the_new_cursors', z3.Implies(r, rebuilt)),
+               ('nothing_changes_on_false', z3.Implies(z3.Not(r), z3.And(f1['cur_len'].term == f0['cur_len'].term, f1['cur_ip'].term == f0['cur_ip'].term,
+                                                                          _same_obj(f1['cur_guess'], f0['cur_guess']))))]
+        if which == 'cur_len':
+            out.append(('initial_ngram_cursor_reset', z3.Implies(r, z3.And(LINT.len(f1['cur_ip'].term) == 2, pl == f0['start_ip'].term, pi == 0))))
+        else:
+            out.append(('length_cursor_kept', f1['cur_len'].term == f0['cur_len'].term))
+        return out
+    return post
+
+
+def _cursor_inv(which, budget_of):
+    def inv(L):
+        e = L.entry
+        slf0 = e.args['self']
+        f0 = slf0.fields
+        ln, ip = _cur_parts(slf0)
+        size = (lambda t: LINT.len(LNT.get(ln, t))) if which == 'cur_len' else (lambda t: LSTR.len(IPT.get(ip, t)))
+        l0, i0 = _at(f0[which].term, 0), _at(f0[which].term, 1)
+        lv, ix = L.level.term, L.index.term
+        cur = L.env['self'].fields
+        return [('position', z3.Or(z3.And(lv == l0, ix == i0 + 1),
+                                   z3.And(lv > l0, lv <= f0['max_level'].term, lv <= budget_of(e), ix == 0, i0 + 1 >= size(l0), _empty_between(size, l0, lv)))),
+                ('untouched_so_far', z3.And(cur['cur_len'].term == f0['cur_len'].term, cur['cur_ip'].term == f0['cur_ip'].term,
+                                            _same_obj(cur['cur_guess'], f0['cur_guess']))),
+                ('table', (L.ln.term == ln) if which == 'cur_len' else (L.ip.term == ip))]
+    return inv
+
+
+_len_budget = lambda c: c.args['self'].fields['target_level'].term      # noqa: E731
+_ip_budget = lambda c: c.args['working_target'].term                    # noqa: E731
+
+Contract(
+    MCM + '._increase_len_for_target',
+    params={'self': MC_CUR},
+    requires=_cursor_requires('cur_len'),
+    result=TBool,
+    ensures=_cursor_post('cur_len', _len_budget),
+    self_modifies=('cur_len', 'cur_ip', 'cur_guess'),
+    loops={0: LoopSpec(fingerprint='while level <= self.max_level', inv=_cursor_inv('cur_len', _len_budget))},
+    raises=(),
+    note='C10.cursor.len: the length cursor moves to the next (level, index) entry of grammar[ln] in level order whose level is at most min(max_level, target_level); '
+         'the initial n-gram cursor restarts at (start_ip, 0) and the GuessStructure is rebuilt for exactly these cursors with the remaining level; False, with nothing changed, '
+         'exactly when no such entry is left',
+)
+
+_ipc = Contract(
+    MCM + '._increase_ip_for_target',
+    params={'self': MC_CUR, 'working_target': TInt},
+    requires=_cursor_requires('cur_ip'),
+    result=TBool,
+    ensures=_cursor_post('cur_ip', _ip_budget),
+    self_modifies=('cur_ip', 'cur_guess'),
+    loops={0: LoopSpec(fingerprint='while level <= self.max_level', inv=_cursor_inv('cur_ip', _ip_budget))},
+    raises=(),
+    note='C10.cursor.ip: the initial n-gram cursor moves to the next (level, index) entry of grammar[ip] in level order whose level is at most min(max_level, working_target); '
+         'the GuessStructure is rebuilt for it with the remaining level; False, with nothing changed, exactly when no such entry is left',
+)
+_ipc.defaults = {'working_target': lambda: ZV(TInt, z3.IntVal(0), 0)}
